@@ -26,6 +26,7 @@ Streams (all seeded from ctx.rng; every case is decided on its WHOLE finite inpu
 `search` re-runs S1/S3 (python-side oracles only, no Lean needed) at higher volume and S2 against a pointwise
 python oracle (number substitution only).
 """
+import contextlib
 import itertools
 from collections import OrderedDict
 from fractions import Fraction
@@ -34,7 +35,7 @@ import numpy as np
 
 from ..common import sx, Q, parse_sx
 from .. import futil, ser, gen_terms
-from ..futil import funsor, Tensor, Number, Variable, Bint, Real, ops
+from ..futil import funsor, Tensor, Number, Variable, Bint, Real, Reals, ops
 from funsor.terms import Subs, Slice, Stack, Cat, Lambda, Funsor
 from funsor.interpretations import reflect, lazy, eager
 from funsor.interpreter import reinterpret
@@ -42,7 +43,7 @@ from funsor.interpreter import reinterpret
 DECLINE = (NotImplementedError, AssertionError, ValueError, TypeError, KeyError, IndexError)
 POOL = ["i", "j", "k", "a", "b"]
 
-PY_HEADER = gen_terms.PY_HEADER + ("from funsor.terms import Subs, Binary\n"
+PY_HEADER = gen_terms.PY_HEADER + ("from funsor.terms import Subs, Binary\nfrom funsor.domains import Reals\n"
                                    "from funsor.interpretations import reflect, lazy, eager\n"
                                    "from funsor.interpreter import reinterpret\n")
 
@@ -53,7 +54,8 @@ def py_footer(order, expected, real_env=None, call="r = CALL()"):
     exp = np.asarray(expected, dtype=np.float64)
     return (f"ORDER = {[(n, int(s_)) for n, s_ in order]!r}\n"
             f"EXPECTED = np.array({exp.tolist()!r}, dtype=np.float64).reshape({tuple(exp.shape)!r})\n"
-            f"REAL_ENV = {dict(real_env or {})!r}\n"
+            "REAL_ENV = {" + ", ".join(f"{k!r}: " + (f"Tensor(np.array({np.asarray(v).tolist()!r}))" if isinstance(v, np.ndarray) else repr(v))
+                                       for k, v in (real_env or {}).items()) + "}\n"
             "def _table(r, order):\n"
             "    data = np.asarray(r.data, dtype=np.float64); names = [n for n, _ in order]; have = list(r.inputs)\n"
             "    assert all(k in names for k in have), ('foreign input', have)\n"
@@ -98,6 +100,12 @@ def build2(r):
         return Variable(r[1], Real)
     if tag == "bin2":
         return gen_terms.OPS[r[1]](build2(r[2]), build2(r[3]))
+    if tag == "rvec":                       # a real ARRAY-valued free variable
+        return Variable(r[1], Reals[r[2]])
+    if tag == "usum":                       # sum over the event dimension
+        return ops.sum(build2(r[1]))
+    if tag == "rget":                       # array[integer-valued expression]
+        return build2(r[1])[build2(r[2])]
     return gen_terms.build(r)
 
 
@@ -107,6 +115,12 @@ def python_of2(r):
         return f"Variable({r[1]!r}, Real)"
     if tag == "bin2":
         return f"ops.{gen_terms._pyop(r[1])}({python_of2(r[2])}, {python_of2(r[3])})"
+    if tag == "rvec":
+        return f"Variable({r[1]!r}, Reals[{r[2]}])"
+    if tag == "usum":
+        return f"ops.sum({python_of2(r[1])})"
+    if tag == "rget":
+        return f"({python_of2(r[1])})[{python_of2(r[2])}]"
     return gen_terms.python_of(r)
 
 
@@ -115,6 +129,30 @@ def describe2(r):
 
 
 INTERPS = {"eager": eager, "lazy": lazy, "reflect": reflect}
+
+
+def _tolerant_alpha_convert(self, alpha_subs):
+    # (same device as fv/harness/c01.py) a Reduce over a variable its argument does not mention cannot be
+    # constructed under `reflect` (Reduce._alpha_convert looks the domain up in arg.inputs: KeyError); only for the
+    # SYNTAX sent to Lean the domain is taken from the reduced variable itself.
+    from funsor.terms import to_funsor
+    doms = {v.name: v.output for v in self.reduced_vars}
+    alpha_subs = {k: to_funsor(v, doms[k]) for k, v in alpha_subs.items()}
+    op, arg, reduced_vars = Funsor._alpha_convert(self, alpha_subs)
+    reduced_vars = frozenset(alpha_subs.get(var.name, var) for var in reduced_vars)
+    return op, arg, reduced_vars
+
+
+@contextlib.contextmanager
+def syntax_mode():
+    from funsor.terms import Reduce
+    orig = Reduce._alpha_convert
+    Reduce._alpha_convert = _tolerant_alpha_convert
+    try:
+        with reflect:
+            yield
+    finally:
+        Reduce._alpha_convert = orig
 
 
 def build_under(name, recipe):
@@ -492,6 +530,15 @@ def gen_ctx(rng):
     return ctx
 
 
+def has_absent_reduce(r):
+    if not isinstance(r, tuple) or not r or not isinstance(r[0], str) or r[0] == "tensor":
+        return False
+    if r[0] == "reduce" and r[4]:
+        return True
+    return any(has_absent_reduce(x) or (isinstance(x, tuple) and any(has_absent_reduce(y) for y in x if isinstance(y, tuple)))
+               for x in r if isinstance(x, tuple))
+
+
 def strip_absent(r):
     """Reductions over variables the argument does not mention cannot be built under `reflect`
     (Reduce._alpha_convert raises KeyError): outside C04's subject, dropped from the recipes."""
@@ -515,8 +562,21 @@ def strip_absent(r):
 def gen_f(rng, c):
     depth = rng.choice([0, 1, 1, 2, 2, 3, 3])
     recipe, free = gen_terms.gen_expr(rng, c, depth, "real")
-    recipe = strip_absent(recipe)
+    # (reductions over variables the argument does not mention are kept: the syntax for Lean is built with the
+    #  tolerant Reduce._alpha_convert of syntax_mode(); strip_absent is no longer applied)
     reals = []
+    if rng.random() < 0.15 and c:
+        # a real ARRAY-valued input v: Reals[n], read through a sum over its event dimension or through indexing
+        # by an integer-valued expression (Tensors themselves only have Bint inputs: tensor.py:143 asserts
+        # `d.dtype == size` per input and :294 `assert not domain.shape`, so real arrays enter only via variables)
+        n = rng.choice([2, 3])
+        if rng.random() < 0.5:
+            arr = ("usum", ("rvec", "v", n))
+        else:
+            idx, _ = gen_terms.gen_leaf(rng, c, n)
+            arr = ("rget", ("rvec", "v", n), idx)
+        recipe = ("bin2", rng.choice(["add", "mul", "max"]), recipe, arr)
+        reals.append("v")
     if rng.random() < 0.3:
         for x in rng.sample(["x", "y"], rng.choice([1, 1, 2])):
             recipe = ("bin2", rng.choice(["add", "mul", "sub", "max"]), recipe, ("rvar", x))
@@ -615,16 +675,23 @@ def cat_capture_region(f_syn, sig_syn, loose=False):
 
 
 def real_envs(names):
-    names = sorted(names)
+    """names: [(name, shape)] (or bare names = scalars) -> up to 4 sample environments."""
+    names = sorted((n, ()) if isinstance(n, str) else (n[0], tuple(n[1])) for n in names)
     if not names:
         return [{}]
-    return [dict(zip(names, vals)) for vals in itertools.product(*[REAL_POINTS[n] for n in names])][:4]
+
+    def pts(n, sh):
+        base = REAL_POINTS.get(n, [0.75, -1.25])
+        if not sh:
+            return base
+        return [np.array([b + 0.5 * i for i in range(sh[0])]) for b in base]
+    return [dict(zip([n for n, _ in names], vals)) for vals in itertools.product(*[pts(n, sh) for n, sh in names])][:4]
 
 
 def syntax_inputs(f):
     ints = [(k, int(v.size)) for k, v in f.inputs.items() if v.dtype != "real"]
     reals = [k for k, v in f.inputs.items() if v.dtype == "real"]
-    bad = [k for k, v in f.inputs.items() if v.shape]
+    bad = [k for k, v in f.inputs.items() if v.shape and (v.dtype != "real" or len(v.shape) > 1)]
     return ints, reals, bad
 
 
@@ -634,7 +701,8 @@ def value_over(r, ins, renv):
     r0 = r
     try:
         if renv:
-            sub = {k: Number(v) for k, v in renv.items() if k in r.inputs}
+            sub = {k: (Tensor(np.asarray(v, dtype=np.float64)) if isinstance(v, np.ndarray) else Number(v))
+                   for k, v in renv.items() if k in r.inputs}
             if sub:
                 r = r(**sub)
         if not isinstance(r, (Tensor, Number)):
@@ -658,7 +726,7 @@ def run_s2(ctx, n, use_lean=True):
         c = gen_ctx(rng)
         recipe, reals = gen_f(rng, c)
         try:
-            with reflect:
+            with syntax_mode():
                 f_syn = build2(recipe)
             f_wire = ser.to_wire(f_syn)
         except ser.Unsupported as e:
@@ -671,6 +739,8 @@ def run_s2(ctx, n, use_lean=True):
         if bad:
             ctx.count("S2:beyond-model:array-input")
             continue
+        if has_absent_reduce(recipe):
+            ctx.count("S2:f-has-reduce-over-absent-var")
         if not f_ints and not f_reals:
             ctx.count("S2:closed-f")
             continue
@@ -688,6 +758,19 @@ def run_s2(ctx, n, use_lean=True):
             sigma.append((k, v))
             kinds.append(kind)
         for k in rkeys:
+            if f_syn.inputs[k].shape:
+                n_ = int(f_syn.inputs[k].shape[0])
+                if rng.random() < 0.3:
+                    v, kind = ("rvec", rng.choice(["u", "v"]), n_), "real-array-rename"
+                else:
+                    names_ = [nm for nm in POOL if rng.random() < 0.35]
+                    for nm in names_:
+                        pool_sizes.setdefault(nm, rng.choice([1, 2, 3]))
+                    c2_ = OrderedDict((nm, pool_sizes[nm]) for nm in names_)
+                    v, kind = gen_terms.gen_tensor(rng, c2_, "real", names=names_, event_shape=(n_,)), "real-array-tensor"
+                sigma.append((k, v))
+                kinds.append(kind)
+                continue
             v, kind = gen_real_value(rng, c, pool_sizes)
             sigma.append((k, v))
             kinds.append(kind)
@@ -700,7 +783,7 @@ def run_s2(ctx, n, use_lean=True):
             if fk not in f_syn.inputs:
                 foreign.append((fk, ("num", 0, 2) if rng.random() < 0.5 else ("var", "i", 2)))
         try:
-            with reflect:
+            with syntax_mode():
                 sig_syn = [(k, build2(v)) for k, v in sigma]
             sig_wire = [[Q(k), ser.to_wire(v)] for k, v in sig_syn]
         except ser.Unsupported as e:
@@ -721,11 +804,11 @@ def run_s2(ctx, n, use_lean=True):
         if ill:
             ctx.count("S2:ill-typed")
             continue
-        if any(d.shape for d in exp.values()):
+        if any(d.shape and (d.dtype != "real" or len(d.shape) > 1) for d in exp.values()):
             ctx.count("S2:beyond-model:array-input")
             continue
         ins = sorted((k, int(d.size)) for k, d in exp.items() if d.dtype != "real")
-        renvs = real_envs([k for k, d in exp.items() if d.dtype == "real"])
+        renvs = real_envs([(k, tuple(d.shape)) for k, d in exp.items() if d.dtype == "real"])
         if int(np.prod([s for _, s in ins] or [1])) > 400:
             ctx.count("S2:too-big")
             continue
@@ -772,7 +855,7 @@ def run_s2(ctx, n, use_lean=True):
             if model is None:
                 ctx.infra_errors.append(f"driver: {ans[:200]} for {wit}")
                 continue
-            last_spec[(case_no, tuple(sorted(renv.items())))] = model
+            last_spec[(case_no, repr(sorted((k, np.asarray(v).tolist()) for k, v in renv.items())))] = model
             if any(c is None for c in model):
                 ctx.count("S2:spec-undefined")
                 ctx.case()
@@ -788,7 +871,7 @@ def run_s2(ctx, n, use_lean=True):
                 continue
             bf, rest = ans[3:].split(" ", 1)
             tab = ser.parse_table("ok " + rest)
-            spec = last_spec.get((case_no, tuple(sorted(renv.items()))))
+            spec = last_spec.get((case_no, repr(sorted((k, np.asarray(v).tolist()) for k, v in renv.items()))))
             if bf != "true":
                 ctx.count("S2:substitute:boundFresh-false")
                 continue
@@ -960,7 +1043,7 @@ def s2_chain(ctx, rng, recipe, sigma, interp, f_wire, sig_wire, exp, pool_sizes,
         v, _ = gen_int_value(rng, None, dict(ints)[k], ps, allow_expr=False)
         b.append((k, v))
     try:
-        with reflect:
+        with syntax_mode():
             b_syn = [(k, build2(v)) for k, v in b]
         b_wire = [[Q(k), ser.to_wire(v)] for k, v in b_syn]
     except (ser.Unsupported,) + DECLINE:
@@ -974,7 +1057,9 @@ def s2_chain(ctx, rng, recipe, sigma, interp, f_wire, sig_wire, exp, pool_sizes,
                 ctx.count("S2:chain:ill-typed")
                 return
     ins2 = sorted((k, int(d.size)) for k, d in exp2.items() if d.dtype != "real")
-    renvs = real_envs([k for k, d in exp2.items() if d.dtype == "real"])
+    if any(d.shape and (d.dtype != "real" or len(d.shape) > 1) for d in exp2.values()):
+        return
+    renvs = real_envs([(k, tuple(d.shape)) for k, d in exp2.items() if d.dtype == "real"])
     r_chain = r_fused = None
     bi = interp if interp != "reflect" else "eager"
     try:
@@ -1472,7 +1557,7 @@ def s5_close(a, b, exact):
     return abs(a - b) <= tol * max(1.0, abs(a), abs(b))
 
 
-def s5_check(ctx, label, build_py, call_py, thunk, target_inputs, sigma, oracle_at, rng, wit, exact):
+def s5_check(ctx, label, build_py, call_py, thunk, target_inputs, sigma, oracle_at, rng, wit, exact, tie=None):
     """Run one substitution route and compare with the oracle over the whole free space (ints) x sample reals."""
     # expected inputs: target's unsubstituted inputs + inputs of the values
     exp = OrderedDict((k, d) for k, d in target_inputs.items() if k not in sigma)
@@ -1514,6 +1599,26 @@ def s5_check(ctx, label, build_py, call_py, thunk, target_inputs, sigma, oracle_
             return
     ctx.count(f"S5:{label}:ok")
     ctx.case(nontrivial_key=("S5", label, repr(wit)))
+    if tie is not None:
+        # tie to the Lean model of _eager_subs_real (ordered pairs, explicit input-order gather): same pairs in the
+        # same ORDER, per batch point; exact rational comparison of the value and of the result's parameters
+        for e in pts[:6]:
+            idx = tuple(int(e[k]) for k in tie["batch"])
+            wv, Pm = tie["w"][idx], tie["P"][idx]
+            xa = [float(x) for k in tie["reals"] if k not in sigma for x in np.asarray(e[k], dtype=np.float64).reshape(-1)]
+            req = ("C04 gsubs head " + sx([[Q(k), int(np.prod(tie["shapes"][k])) if tie["shapes"][k] else 1] for k in tie["reals"]]) +
+                   f" {Pm.shape[-1]} " + sx([float(x) for x in wv]) + " " + sx([[float(x) for x in row] for row in Pm]) + " " +
+                   sx([[Q(k), [float(x) for x in np.asarray(sigma[k].fn(e), dtype=np.float64).reshape(-1)]] for k in tie["order"]]) +
+                   " " + sx(xa))
+            got = s5_eval(r, e)
+            params = None
+            if isinstance(r, Gaussian):
+                int_names = [k for k, d in r.inputs.items() if d.dtype != "real"]
+                ridx = tuple(int(e[k]) for k in int_names)
+                rw = np.broadcast_to(np.asarray(r.white_vec), tuple(r.inputs[k].size for k in int_names) + np.asarray(r.white_vec).shape[-1:])[ridx]
+                rP = np.broadcast_to(np.asarray(r.prec_sqrt), tuple(r.inputs[k].size for k in int_names) + np.asarray(r.prec_sqrt).shape[-2:])[ridx]
+                params = ([Fraction(float(x)) for x in rw], [[Fraction(float(x)) for x in row] for row in rP])
+            ctx.extra.setdefault("_s5_tie", []).append((req, Fraction(got), params, wit))
 
 
 def s5_gaussian(ctx, rng):
@@ -1567,11 +1672,14 @@ def s5_gaussian(ctx, rng):
         keys = list(sigma)
         perms = list(itertools.permutations(keys))
         rng.shuffle(perms)
+        tieable = (all(v.kind in ("array", "tensor") for v in sigma.values()) and all(k in reals for k in sigma)
+                   and any(k not in sigma for k in reals))
         for perm in perms[:4]:
             pairs_py = "(" + ", ".join(f"({k!r}, {sigma[k].py})" for k in perm) + ",)"
             s5_check(ctx, "gaussian-Subs-permuted", build_py, f"Subs(g, {pairs_py})",
                      lambda perm=perm: Subs(g, tuple((k, sigma[k].f) for k in perm)),
-                     target_inputs, sigma, oracle_for(sigma), rng, dict(wit, order=list(perm)), exact)
+                     target_inputs, sigma, oracle_for(sigma), rng, dict(wit, order=list(perm)), exact,
+                     tie=dict(batch=batch, reals=reals, shapes=shapes, w=w, P=P, order=list(perm)) if tieable else None)
         kw_py = "g(**{" + ", ".join(f"{k!r}: {sigma[k].py}" for k in keys) + "})"
         s5_check(ctx, "gaussian-call", build_py, kw_py, lambda: g(**{k: v.f for k, v in sigma.items()}),
                  target_inputs, sigma, oracle_for(sigma), rng, wit, exact)
@@ -1675,12 +1783,244 @@ def s5_delta(ctx, rng):
              lambda: d(**{k: v.f for k, v in sigma.items()}), target_inputs, sigma, oracle_for(sigma), rng, wit, True)
 
 
-def run_s5(ctx, n):
+# ------------------------------------------------------------------------------------------------
+# S6: Independent / Constant / MarkovProduct / Scatter substitution vs python oracles (spec-only)
+# ------------------------------------------------------------------------------------------------
+
+KF_MARKOV = "KF-markov-subs-sequential"
+KF_SCATTER = "KF-scatter-subs-dropped"
+
+
+def _eval_closed(r, env):
+    """Bind every input of r (ints as python ints, reals as arrays) and return a float."""
+    kw = {k: (int(env[k]) if d.dtype != "real" else Tensor(np.asarray(env[k], dtype=np.float64))) for k, d in r.inputs.items()}
+    out = r(**kw) if kw else r
+    if not isinstance(out, (Tensor, Number)):
+        with eager:
+            out = reinterpret(out)
+    if not isinstance(out, (Tensor, Number)) or out.inputs:
+        raise NotImplementedError("not a number")
+    return float(np.asarray(out.data))
+
+
+def _all_envs(rng, inputs):
+    ints = [(k, int(d.size)) for k, d in inputs.items() if d.dtype != "real"]
+    reals = [(k, tuple(d.shape)) for k, d in inputs.items() if d.dtype == "real"]
+    for ip in itertools.product(*[range(sz) for _, sz in ints]):
+        e = dict(zip([k for k, _ in ints], ip))
+        for k, sh in reals:
+            e[k] = _dyarr(rng, sh, -6, 6)
+        yield e
+
+
+def s6_compare(ctx, label, r, expected_names, oracle, rng, wit, py):
+    bad = [k for k in r.inputs if k not in expected_names]
+    if bad:
+        ctx.fail("input", f"C04.S6.{label}.inputs", witness=wit, expected=str(sorted(expected_names)),
+                 got=str({k: str(d) for k, d in r.inputs.items()}), python=py)
+        return False
+    n = 0
+    for e in _all_envs(rng, r.inputs):
+        n += 1
+        if n > 16:
+            break
+        try:
+            got = _eval_closed(r, e)
+        except DECLINE as ex:
+            ctx.count(f"S6:{label}:eval-declined:{type(ex).__name__}")
+            return True
+        want = oracle(e)
+        if not s5_close(got, want, True):
+            ctx.fail("input", f"C04.S6.{label}.value", witness=dict(wit, point={k: np.asarray(v).tolist() for k, v in e.items()}),
+                     expected=want, got=got, python=py)
+            return False
+    ctx.count(f"S6:{label}:ok")
+    ctx.case(nontrivial_key=("S6", label, repr(wit)))
+    return True
+
+
+def run_s6(ctx):
+    from funsor.terms import Independent, Scatter
+    from funsor.constant import Constant
+    from funsor.sum_product import MarkovProduct
+    rng = ctx.rng
+    hdr = S5_HEADER + ("from funsor.terms import Independent, Scatter\nfrom funsor.constant import Constant\n"
+                       "from funsor.sum_product import MarkovProduct\n")
+    # ---- Independent(fn, 'x', 'i', 'x_i') with fn = a[i,k] * x_i + b[i]:  sum_i a[i,k] x[i] + b[i]
+    for n, how in itertools.product([1, 2, 3], ["eager", "lazy"]):
+        a = _dyarr(rng, (n, 2)); b = _dyarr(rng, (n,))
+        with INTERPS[how]:
+            fn = Tensor(a, OrderedDict(i=Bint[n], k=Bint[2])) * Variable("x_i", Real) + Tensor(b, OrderedDict(i=Bint[n]))
+            f = Independent(fn, "x", "i", "x_i")
+        build = (f"with {how}:\n    fn = Tensor({_arr_py(a)}, OrderedDict(i=Bint[{n}], k=Bint[2])) * Variable('x_i', Real) + "
+                 f"Tensor({_arr_py(b)}, OrderedDict(i=Bint[{n}]))\n    f = Independent(fn, 'x', 'i', 'x_i')\n")
+        base = lambda xv, k: float(sum(a[i, k] * xv[i] + b[i] for i in range(n)))
+        vals = []
+        arr = _dyarr(rng, (n,)); vals.append(("array", Tensor(arr), f"Tensor({_arr_py(arr)})", lambda e, arr=arr: arr, set()))
+        arr2 = _dyarr(rng, (2, n))
+        vals.append(("tensor-own-k", Tensor(arr2, OrderedDict(k=Bint[2])), f"Tensor({_arr_py(arr2)}, OrderedDict(k=Bint[2]))",
+                     lambda e, arr2=arr2: arr2[e["k"]], {"k"}))
+        arr3 = _dyarr(rng, (3, n))
+        vals.append(("tensor-fresh", Tensor(arr3, OrderedDict(m=Bint[3])), f"Tensor({_arr_py(arr3)}, OrderedDict(m=Bint[3]))",
+                     lambda e, arr3=arr3: arr3[e["m"]], {"m"}))
+        vals.append(("rename", Variable("y", Reals[n]), f"Variable('y', Reals[{n}])", lambda e: np.asarray(e["y"]), {"y"}))
+        vals.append(("affine", Variable("y", Reals[n]) * 2.0, f"(Variable('y', Reals[{n}]) * 2.0)", lambda e: 2.0 * np.asarray(e["y"]), {"y"}))
+        for kind, v, vpy, vfn, vins in vals:
+            for ksub in (None, 1):
+                sig = {"x": v}
+                spy = f"'x': {vpy}"
+                if ksub is not None:
+                    sig["k"] = ksub
+                    spy += ", 'k': 1"
+                wit = {"stream": "S6.independent", "n": n, "built_under": how, "x": kind, "k": ksub}
+                py = hdr + build + f"r = f(**{{{spy}}})\nprint(r.inputs, r)\nFAILS = True\n"
+                try:
+                    r = f(**sig)
+                except DECLINE as ex:
+                    ctx.count(f"S6:independent:declined:{type(ex).__name__}")
+                    continue
+                expn = ({"k"} if ksub is None else set()) | set(vins)
+                s6_compare(ctx, "independent", r, expn,
+                           # simultaneous: the value reads the CALLER's k, fn's own k becomes ksub
+                           lambda e, vfn=vfn, ksub=ksub: base(vfn(e), e["k"] if ksub is None else ksub), rng, wit, py)
+    # ---- Constant
+    for trial in range(30):
+        consts = OrderedDict()
+        for nm in rng.sample(["a", "b", "c"], rng.choice([1, 2, 3])):
+            consts[nm] = rng.choice([Bint[2], Bint[3], Real])
+        argd = _dyarr(rng, (2,))
+        arg = Tensor(argd, OrderedDict(j=Bint[2]))
+        f = Constant(consts, arg)
+        sig, exp_names = {}, {"j"}
+        for nm, d in consts.items():
+            r_ = rng.random()
+            if r_ < 0.3:
+                exp_names.add(nm)
+                continue
+            if d.dtype == "real":
+                sig[nm] = rng.choice([Tensor(np.array(0.5)), Variable(rng.choice(["p", "a", "b"]), Real),
+                                      Tensor(np.array([0.5, 1.0]), OrderedDict(j=Bint[2]))])
+            else:
+                sig[nm] = rng.choice([0, Variable(rng.choice(["m", "a", "b", "c"]), d),
+                                      Tensor(np.array([0, 1]), OrderedDict(j=Bint[2]), d.size)])
+            if isinstance(sig[nm], Funsor):
+                exp_names |= set(sig[nm].inputs)
+        jsub = rng.choice([None, 1])
+        if jsub is not None:
+            sig["j"] = jsub
+            # j may still be an input of a value
+            if not any(isinstance(v, Funsor) and "j" in v.inputs for v in sig.values()):
+                exp_names.discard("j")
+        if not sig:
+            continue
+        wit = {"stream": "S6.constant", "consts": {k: str(d) for k, d in consts.items()}, "sigma": {k: str(v) for k, v in sig.items()}}
+        try:
+            r = f(**sig)
+        except DECLINE as ex:
+            ctx.count(f"S6:constant:declined:{type(ex).__name__}")
+            continue
+        s6_compare(ctx, "constant", r, exp_names, lambda e, jsub=jsub: float(argd[jsub if jsub is not None else e["j"]]), rng, wit,
+                   hdr + f"# Constant({dict(consts)}, Tensor({argd.tolist()}, j))(**{wit['sigma']})\nFAILS = True\n")
+    # ---- MarkovProduct (lazy) and Scatter (lazy): renamings are right; other shapes are the regions of two findings
+    trans_d = _dyarr(rng, (2, 2, 2), 0, 4)
+    trans = Tensor(trans_d, OrderedDict(t=Bint[2], a=Bint[2], b=Bint[2]))
+    with lazy:
+        mp = MarkovProduct(ops.add, ops.mul, trans, Variable("t", Bint[2]), frozenset({("a", "b")}),
+                           frozenset({("a", "a"), ("b", "b")}))
+    M = trans_d[0] @ trans_d[1]
+    mp_py = (hdr + f"trans = Tensor({_arr_py(trans_d)}, OrderedDict(t=Bint[2], a=Bint[2], b=Bint[2]))\nwith lazy:\n"
+             "    mp = MarkovProduct(ops.add, ops.mul, trans, Variable('t', Bint[2]), frozenset({('a', 'b')}), "
+             "frozenset({('a', 'a'), ('b', 'b')}))\n")
+    mp_bad = []
+    for sig, spec, clash in (({"a": "c"}, lambda e: M[e["c"], e["b"]], False), ({"a": "b", "b": "a"}, lambda e: M[e["b"], e["a"]], False),
+                             ({"a": "b"}, lambda e: M[e["b"], e["b"]], False), ({"a": 1}, lambda e: M[1, e["b"]], False),
+                             ({"a": "c", "b": 1}, lambda e: M[e["c"], 1], False), ({"a": "b", "b": 0}, lambda e: M[e["b"], 0], True),
+                             ({"b": "a", "a": 1}, lambda e: M[1, e["a"]], True)):
+        try:
+            with lazy:
+                r = mp(**sig)
+            with eager:
+                r = reinterpret(r)
+        except DECLINE as ex:
+            ctx.count(f"S6:markov:declined:{type(ex).__name__}")
+            continue
+        expn = {v for v in sig.values() if isinstance(v, str)} | ({"a", "b"} - set(sig))
+        py = mp_py + f"with lazy:\n    r = mp(**{sig!r})\nr = reinterpret(r)\nprint(r.inputs, r)\nFAILS = True\n"
+        if clash:
+            ok = set(r.inputs) == expn and all(s5_close(_eval_closed(r, e), float(spec(e)), True) for e in _all_envs(rng, r.inputs))
+            if not ok:
+                mp_bad.append({"sigma": sig, "got_inputs": sorted(r.inputs), "python": py})
+            continue
+        s6_compare(ctx, "markov", r, expn, lambda e, spec=spec: float(spec(e)), rng, {"stream": "S6.markov", "sigma": sig}, py)
+    listed = ctx.known(KF_MARKOV, reproduced=bool(mp_bad),
+                       what="lazy MarkovProduct: eager_subs renames step_names first, then Subs(result, lazy) hits the renamed-to name "
+                            "(mp(a='b', b=0) loses b): sequential, not simultaneous")
+    if mp_bad and not listed:
+        w_ = dict(mp_bad[0]); py = w_.pop("python")
+        ctx.fail("input", "C04.known." + KF_MARKOV, witness=w_, expected="M[b, 0] over {b}", got="input b substituted too", python=py)
+    src_d = _dyarr(rng, (3,)); idx_d = np.array([2, 0, 1])
+    with lazy:
+        sc = Scatter(ops.add, (("i", Tensor(idx_d, OrderedDict(j=Bint[3]), 4)),), Tensor(src_d, OrderedDict(j=Bint[3])) + Variable("x", Real),
+                     frozenset({Variable("j", Bint[3])}))
+    dense = np.zeros(4); dense[idx_d] = src_d
+    sc_py = (hdr + f"with lazy:\n    sc = Scatter(ops.add, (('i', Tensor({_arr_py(idx_d)}, OrderedDict(j=Bint[3]), 4)),), "
+             f"Tensor({_arr_py(src_d)}, OrderedDict(j=Bint[3])) + Variable('x', Real), frozenset({{Variable('j', Bint[3])}}))\n")
+    sc_bad = []
+    for sig, spec, region in (({"i": "k"}, lambda e: dense[e["k"]], False), ({"i": 2}, lambda e: dense[2], True),
+                              ({"i": Tensor(np.array([0, 3]), OrderedDict(m=Bint[2]), 4)}, lambda e: dense[[0, 3][e["m"]]], True)):
+        try:
+            r = sc(**sig)
+            r0 = r(x=0.0) if "x" in r.inputs else r
+            with eager:
+                r0 = reinterpret(r0)
+        except DECLINE as ex:
+            ctx.count(f"S6:scatter:declined:{type(ex).__name__}")
+            continue
+        expn = set().union(*[({v} if isinstance(v, str) else set(getattr(v, "inputs", ()))) for v in sig.values()])
+        py = sc_py + "r = sc(**SIGMA)  # see witness\nFAILS = True\n"
+        if region:
+            if "i" in r.inputs:
+                sc_bad.append({"sigma": {k: str(v) for k, v in sig.items()}, "got_inputs": sorted(r.inputs),
+                               "python": sc_py + "r = sc(i=2)\nprint(type(r).__name__, r.inputs)\nFAILS = 'i' in r.inputs\n"})
+                continue
+        s6_compare(ctx, "scatter", r0, expn, lambda e, spec=spec: float(spec(e)), rng,
+                   {"stream": "S6.scatter", "sigma": {k: str(v) for k, v in sig.items()}}, py)
+    listed = ctx.known(KF_SCATTER, reproduced=bool(sc_bad),
+                       what="lazy Scatter: eager_subs drops every non-Variable substitution of a destination name (sc(i=2) is returned unchanged)")
+    if sc_bad and not listed:
+        w_ = dict(sc_bad[0]); py = w_.pop("python")
+        ctx.fail("input", "C04.known." + KF_SCATTER, witness=w_, expected="i substituted", got="Scatter returned unchanged", python=py)
+
+
+def run_s5(ctx, n, use_lean=True):
     for _ in range(n):
         if ctx.rng.random() < 0.8:
             s5_gaussian(ctx, ctx.rng)
         else:
             s5_delta(ctx, ctx.rng)
+    tie = ctx.extra.pop("_s5_tie", [])
+    if not use_lean or not tie:
+        return
+    answers = ctx.driver.ask([t[0] for t in tie])
+    for (req, got, params, wit), ans in zip(tie, answers):
+        if not ans.startswith("ok "):
+            ctx.count(f"S5:tie:{ans[:20]}")
+            continue
+        t = parse_sx("(" + ans[3:] + ")")
+        m_eval, s_eval = Fraction(t[0]), Fraction(t[1])
+        if m_eval != s_eval:
+            ctx.fail("correspondence", "C04.S5.lean-gsubs-model-vs-spec (gauss_subs_real_sem echo)", witness=wit,
+                     expected=str(s_eval), got=str(m_eval))
+            continue
+        # (the Gaussian constructor compresses rank > dim by a QR step: values agree up to rounding, not bit for bit)
+        if abs(float(got) - float(m_eval)) > 1e-9 * max(1.0, abs(float(m_eval))):
+            ctx.fail("correspondence", "C04.S5.impl-vs-lean-gsubs", witness=dict(wit, request=req), expected=str(m_eval), got=str(got))
+            continue
+        ctx.count("S5:tie:value-identical" if got == m_eval else "S5:tie:value-within-1e-9")
+        if params is not None:
+            mw = [Fraction(x) for x in t[2]]
+            mP = [[Fraction(x) for x in row] for row in t[3]]
+            ctx.count("S5:tie:params-identical" if (mw, mP) == (list(params[0]), [list(r_) for r_ in params[1]]) else "S5:tie:params-differ")
 
 
 # ------------------------------------------------------------------------------------------------
@@ -1694,7 +2034,12 @@ RULE = ("S1: exhaustive sigma-shapes (18 descriptors per input: none, number, va
         "model vs Lean denote. S2: random (f, sigma) with f from fv/gen_terms.py (depth <= 3, 1-3 inputs of sizes 1-3, "
         "optional real free variables) built under eager/lazy/reflect, sigma from {number, variable over a 5-name pool, "
         "slice, index tensor, integer lazy expression, real expression}, foreign keys, chained vs fused; vs Lean denote "
-        "over the whole input space (real inputs at sample points). S3: exhaustive boxes for Slice-into-Slice, Cat/Stack "
+        "over the whole input space (real inputs at sample points; real ARRAY inputs Reals[n] read through sum/getitem and "
+        "substituted by array tensors / renamings; reductions over absent variables kept). S5 (spec-only, beyond the Lean "
+        "term model): Gaussians with 2-4 real inputs (scalars / small vectors) + 0-2 batch inputs and Deltas, dyadic "
+        "parameters, sigma in every order of the pairs through g(**kw) and a directly built Subs, chained with a non-affine "
+        "lazy first step, fused and fused-reversed, vs the explicit formula; partial real substitutions additionally tied "
+        "to the Lean model of _eager_subs_real (ordered pairs). S3: exhaustive boxes for Slice-into-Slice, Cat/Stack "
         "with Slice/Number. Non-trivial = at least one non-number value; distinct by full content.")
 
 
@@ -1705,8 +2050,13 @@ def correspond(ctx):
     run_s1(ctx)
     run_s2(ctx, 4000 if ctx.tier == "quick" else 60000)
     run_s5(ctx, 500 if ctx.tier == "quick" else 8000)
+    run_s6(ctx)
     ctx.extra["beyond_model_spec_only"] = ("stream S5 (Gaussian/Delta substitution) is compared with the explicit formula "
                                            "-1/2||xP-w||^2 / point-mass in numpy only: exploration, not tied to a Lean model")
+    ctx.assumptions.append("a Tensor has only scalar Bint inputs (Tensor.__init__ asserts `d.dtype == size` per input, tensor.py:143-144; "
+                           "eager_subs asserts `not domain.shape`, tensor.py:294): real-valued ARRAY substitution into a Tensor does not exist; "
+                           "real arrays are substituted for Variables (S2: Reals[n] inputs read through sum/getitem), Gaussian/Delta inputs (S5) and "
+                           "Independent's reals_var (S6)")
     ctx.assumptions.append("numpy basic/advanced indexing is modelled by its index-level specification (composition of index functions)")
     ctx.assumptions.append("Gaussian/Delta eager_subs are checked against the explicit numpy formula only (stream S5, no Lean model: C12/C14 own those models); Independent/Scatter/MarkovProduct eager_subs are outside the C04 harness")
 
@@ -1715,7 +2065,7 @@ def search(ctx, broken):
     """Python-side oracles only (works without Lean): S1 against numpy, S3 against python slicing at higher
     volume; S2 against a pointwise oracle (number substitution only)."""
     run_rewritten(ctx)
-    run_s5(ctx, 2000)
+    run_s5(ctx, 2000, use_lean=False)
     if any(f.witness is not None for f in ctx.failures):
         return
     run_s3(ctx, use_lean=False)
@@ -1736,7 +2086,7 @@ def run_s2_oracle(ctx, n):
             continue
         interp = rng.choice(["eager", "lazy", "reflect"])
         try:
-            with reflect:
+            with syntax_mode():
                 f_syn = build2(recipe)
             f = build_under(interp, recipe)
         except DECLINE:
